@@ -120,6 +120,14 @@ def _check_partition(parent_elems, shards, what, contiguous, roundtrip):
   return lists
 
 
+def _idx(case, v):
+  """Shard indices / counts as the caller may hold them: Python ints or (narrow, unsigned) numpy integers."""
+  kind = case.get('index_kind', 'int')
+  if kind == 'uint8_index':      # a narrow unsigned *index* (the count stays a Python int); only for sequence sources
+    return v
+  return v if kind == 'int' else getattr(np, kind)(v)
+
+
 def run_shard(case):
   kind, n, ks = case['kind'], case['n'], case['ks']
   root = _guard(lambda: _make_source(kind, n, case.get('splits', [])), 'building source')
@@ -130,7 +138,9 @@ def run_shard(case):
   for depth, k in enumerate(ks):
     nxt = []
     for src, elems, name in level:
-      shards = [_guard(lambda i=i: src.shard(i, k), f'{name}.shard({i},{k})') for i in range(k)]
+      narrow = case.get('index_kind') == 'uint8_index' and contiguous
+      shards = [_guard(lambda i=i: src.shard(np.uint8(i) if narrow else _idx(case, i), _idx(case, k)), f'{name}.shard({i},{k})')
+                for i in range(k)]
       lists = _check_partition(elems, shards, f'{kind} n={n} {name}.shard(*,{k})', contiguous,
                                case.get('pickle', False))
       for i, (s, l) in enumerate(zip(shards, lists)):
@@ -198,7 +208,7 @@ def strat_shard(tier):
       ks = [min(k, 4) for k in ks]
     splits = sorted(draw(st.lists(st.integers(0, n), max_size=4)))
     return {'kind': kind, 'n': n, 'ks': ks, 'offsets': n <= 60 and depth <= 2, 'splits': splits,
-            'pickle': draw(st.booleans())}
+            'pickle': draw(st.booleans()), 'index_kind': draw(st.sampled_from(['int', 'int', 'int64', 'int32', 'uint8_index']))}
   return s()
 
 
